@@ -39,7 +39,7 @@ CORPUS = [
 
 def gen_cases(ctx):
     rng = ctx.rng
-    n = 1 if ctx.quick else 14
+    n = 3 if ctx.quick else 36
     cases = list(CORPUS)
     base = ctx.seed * 1000003 + 17
     k = 0
